@@ -378,27 +378,37 @@ def py_value(v, built):
     return [built[i] for i in x]
 
 
-def build_kwargs(al, built):
+def build_kwargs(al, built, live=None):
+    """live: None, or a list collecting (list object, final contents): every value list is then handed over with OTHER
+    contents (empty, or the final ones reversed without the first) and set to the final contents only after the query is built"""
     from krrood.entity_query_language.match import match, match_any, match_all, select, select_any, select_all
+
+    def value(v):
+        x = py_value(v, built)
+        if live is not None and isinstance(x, list):
+            init = [] if len(live) % 2 == 0 else list(reversed(x))[1:]
+            live.append((init, x))
+            return init
+        return x
     kw = {}
     for a, ap in al:
         if ap[0] == "lit":
-            kw[a] = py_value(ap[1], built)
+            kw[a] = value(ap[1])
         elif ap[0] == "any":
-            kw[a] = match_any(py_value(ap[1], built))
+            kw[a] = match_any(value(ap[1]))
         elif ap[0] == "all":
-            kw[a] = match_all(py_value(ap[1], built))
+            kw[a] = match_all(value(ap[1]))
         elif ap[0] == "sel_any":
-            kw[a] = select_any(py_value(ap[1], built))
+            kw[a] = select_any(value(ap[1]))
         elif ap[0] == "sel_all":
-            kw[a] = select_all(py_value(ap[1], built))
+            kw[a] = select_all(value(ap[1]))
         elif ap[0] == "var":
             from krrood.entity_query_language.entity import let
             kw[a] = let(CLASSES[ap[1]], py_value(ap[2], built))
         else:
             ctor = {"any": match_any, "match": match, "select": select, "select_any": select_any}[ap[3]]
             t = CLASSES[ap[1]] if ap[1] else None
-            kw[a] = (ctor(t) if t is not None else ctor())(**build_kwargs(ap[2], built))
+            kw[a] = (ctor(t) if t is not None else ctor())(**build_kwargs(ap[2], built, live))
     return kw
 
 
@@ -425,7 +435,12 @@ def run_impl(d: dict):
         from krrood.entity_query_language.match import entity_selection
         from krrood.entity_query_language.symbolic import UnificationDict
         ctor = entity_selection if d.get("rootsel") else entity_matching
-        q = an(ctor(CLASSES[d["T"]], [built[i] for i in d["dom"]])(**build_kwargs(d["pat"], built)))
+        live = [] if d.get("live") else None
+        q = an(ctor(CLASSES[d["T"]], [built[i] for i in d["dom"]])(**build_kwargs(d["pat"], built, live)))
+        if d.get("live") == 2:
+            list(q.evaluate())                   # a first evaluation over the initial contents
+        for lst, final in (live or []):
+            lst[:] = final                       # the caller changes the lists it handed over (the explicit query sees them live)
         res = list(q.evaluate())
         selected = list(q._child_.selected_variables)
         rows = []
@@ -561,7 +576,10 @@ def gen_cases(tier: str, seed: int) -> List[dict]:
         r.shuffle(dom)
         if r.chance(0.3):
             dom = dom[: max(1, len(dom) - 3)]
-        out.append({"objs": objs, "T": T, "pat": pat, "dom": dom, "rootsel": bool(sel and r.chance(0.4))})
+        case = {"objs": objs, "T": T, "pat": pat, "dom": dom, "rootsel": bool(sel and r.chance(0.4))}
+        if not wild and r.chance(0.25):
+            case["live"] = r.choice([1, 1, 2])   # value lists filled / changed after the pattern is built (2: between two evaluations)
+        out.append(case)
     return out
 
 
@@ -606,6 +624,11 @@ def gen_directed(tier: str, seed: int) -> List[dict]:
         common = [x for x in ut["parts"] if x in u0["parts"]]
         if common and second[0] != "parts":
             firsts.append(["parts", ["any", ["lo", [r.choice(common)]]]])
+        if common and second[0] != "parts" and r.chance(0.5):
+            # two collection levels with match_any at the bottom, witnessed by a part both units hold
+            cp = objs[r.choice(common)]
+            bottom = r.choice([["name", ["any", ["ls", [cp["name"]]]]], ["size", ["any", ["li", [cp["size"]]]]], ["tag", ["any", ["li", [cp.get("tag", 1)]]]]])
+            firsts = [["parts", ["match", r.choice(["Part", None]), [bottom], "match"]]]
         if not firsts:
             continue
         first = r.choice(firsts)
@@ -757,6 +780,8 @@ def run(tier: str, seed: int, replay=None) -> int:
         for k, n in kinds(d["pat"]).items():
             bump("kind:" + k if k != "depth" else f"depth:{n}", n if k != "depth" else 1)
         bump("in_F" if inf else "outside_F")
+        if d.get("live"):
+            bump(f"live value lists (mode {d['live']})")
         if inflax and not inf:
             bump("in_F11lax only (finding C11-e characterised by C11_match_lax)")
         if inflax and model is not None and not sel_case and model != lax:
